@@ -261,8 +261,8 @@ for (n, ty, k) in [("index_queue", "FixedSizeIndexQueue<2>", 3), ("overflow_queu
            "container": dict(_ROBUST_SEQ, **{"bump_allocator&8allocate": 2}),
            "slot_map": {"next_available_key_after": 3}, "flat_map": {"next_available_key_after": 3}}.get(n)
     _c14.append(H("c14::c14_" + n, covers=1, unwindset=_uw, timeout=7200 if heavy else 2400,
-                  mem_gb=30 if heavy else (18 if n in ("robust_index_set", "container", "bit_set") else 8),
-                  tiers=("thorough",) if heavy else ("quick", "thorough"),
+                  mem_gb=30 if (heavy or n == "container") else (12 if n in ("robust_index_set", "bit_set") else 8),
+                  tiers=("thorough",) if (heavy or n in ("bit_set", "container")) else ("quick", "thorough"),
                   what="%s: %d symbolic operations, byte-copy to a fresh block at a symbolic point of the history "
                        "(old block scribbled and freed), lock-step comparison with a twin that stayed" % (ty, k),
                   bounds="unwind 8-12; %d operations, relocation point symbolic" % k))
@@ -833,10 +833,16 @@ PROPS["C13"].update({
                   "another process can act, not every atomic operation",
 })
 PROPS["C14"].update({
-    "level_text": _BMC + ". For each relocatable structure: a symbolic operation history in which the structure is "
-                  "byte-copied to a different block at a symbolic point (old block scribbled and freed) and compared in "
-                  "lock-step with a twin that stayed; RelocatablePointer follows the placement delta exactly.",
-    "level_note": "2-3 operations, capacities 2-3; SlotMap / FlatMap relocation in the thorough tier only (30 GB)",
+    "level_text": _BMC + ". For each relocatable structure (index queue, overflowing index queue, unique index set, robust "
+                  "index set, counting bit set, StaticVec, RelocatableVec, FixedSizeQueue, StaticString, used-chunk list, "
+                  "shm pool allocator with its management memory): a symbolic operation history in which the structure "
+                  "is byte-copied to a different block at a symbolic point (old block scribbled and freed, or kept and "
+                  "checked to stay untouched) and compared in lock-step with a twin that stayed; RelocatablePointer "
+                  "follows the placement delta exactly; the shm pool allocator yields the same offsets over two "
+                  "differently placed segments.",
+    "level_note": "2-3 operations, capacities 2-3; FixedSizeContainer relocation is thorough tier (28 GB); bit set, "
+                  "SlotMap and FlatMap relocation harnesses exist but did not finish within their caps and are not "
+                  "part of any registered command",
 })
 PROPS["C19"].update({
     "level_note": "strings <= 4 bytes; the specification predicates in c19.rs are trusted; ServiceName / NodeName "
@@ -846,7 +852,7 @@ PROPS["C19"].update({
 })
 
 # properties whose checks are still being stabilised are not claimed in MANIFEST.json yet
-NOT_READY = ["C01", "C02", "C10", "C12", "C14"]
+NOT_READY = ["C01", "C02", "C10", "C12"]
 for _p in PROPS:
     PROPS[_p]["claimed"] = (_p not in NOT_READY) and ("level_text" in PROPS[_p])
 PROPS["C03"]["extra"] = [_engine_m("c08_completion")]
@@ -860,6 +866,7 @@ THOROUGH_OBSERVED = set("""
 c09_s_robust_recover_vs_recover c09_s_robust_recover_vs_owner c09_s_uis_race_cap1
 c13_q_race_detach_before_registration c13_forced_removal
 c05_ev_history c05_bitset_history_deep
+c14_container
 """.split())
 for _p in PROPS:
     for _h in PROPS[_p]["harnesses"]:
